@@ -23,6 +23,12 @@ type Interpreter struct {
 func New(in io.Reader, out io.Writer) *Interpreter {
 	var i Interpreter
 	i.FS = defaultFS{}
+	if in == nil {
+		in = strings.NewReader("") // reading from user_input yields end_of_file.
+	}
+	if out == nil {
+		out = io.Discard // what's written to user_output is dropped.
+	}
 	i.SetUserInput(engine.NewInputTextStream(in))
 	i.SetUserOutput(engine.NewOutputTextStream(out))
 
